@@ -71,6 +71,9 @@ def _types_list_monomorphic(t):
     monomorphic list type (*i.e.*, a list type wherein the types of the items
     are fully specified).
     """
+    if not hasattr(t, "__name__"):
+        return False
+
     if t.__name__ == "list" and hasattr(t, "__args__") and len(t.__args__) == 1:
         return _types_list_monomorphic(t.__args__[0])
 
@@ -84,10 +87,46 @@ def _types_list_monomorphic_depth(t):
     """
     Return an integer representing the depth of the monomorphic list type.
     """
-    if t.__name__ == "list" and hasattr(t, "__args__") and len(t.__args__) == 1:
+    if (
+        hasattr(t, "__name__")
+        and t.__name__ == "list"
+        and hasattr(t, "__args__")
+        and len(t.__args__) == 1
+    ):
         return 1 + _types_list_monomorphic_depth(t.__args__[0])
 
     return 0
+
+
+_TYPES_BY_NAME = {
+    "bool": bool,
+    "int": int,
+    "str": str,
+    "list": list,
+    "Integer": Integer,
+    "PublicInteger": PublicInteger,
+    "SecretInteger": SecretInteger,
+    "Boolean": Boolean,
+    "PublicBoolean": PublicBoolean,
+    "SecretBoolean": SecretBoolean,
+}
+
+
+def _types_eval(a):
+    """
+    Resolve a type annotation to a type without evaluating it (the audited
+    program is never executed, not even its annotations). Raises
+    :obj:`ValueError` for anything that is not a supported type expression.
+    """
+    if isinstance(a, ast.Name) and a.id in _TYPES_BY_NAME:
+        return _TYPES_BY_NAME[a.id]
+    if (
+        isinstance(a, ast.Subscript)
+        and isinstance(a.value, ast.Name)
+        and a.value.id == "list"
+    ):
+        return list[_types_eval(a.slice)]
+    raise ValueError("unsupported type annotation")
 
 
 def _types_monomorphic(t):
@@ -214,23 +253,32 @@ def types(a, env=None, func=False):
                 rules_no_restriction(a)
                 rules_no_restriction(a.args)
 
-                t_ret = eval(ast.unparse(a.returns))  # pylint: disable=eval-used
-                if _types_monomorphic(t_ret):
+                t_ret = None
+                try:
+                    t_ret = _types_eval(a.returns)
+                except ValueError:
+                    pass  # Missing or unsupported annotation (remains restricted).
+                if t_ret is not None and _types_monomorphic(t_ret):
                     rules_no_restriction(a.returns)
 
                 env_ = dict(env)
                 ts = []
                 for arg in a.args.args:
                     var = arg.arg
-                    t_var = eval(ast.unparse(arg.annotation))  # pylint: disable=eval-used
-                    if _types_monomorphic(t_var):
+                    t_var = None
+                    try:
+                        t_var = _types_eval(arg.annotation)
+                    except ValueError:
+                        pass  # Missing or unsupported annotation (remains restricted).
+                    if t_var is not None and _types_monomorphic(t_var):
                         rules_no_restriction(arg)
                         rules_no_restriction(arg.annotation, recursive=True)
                         env_[var] = t_var
                         ts.append(t_var)
                 for a_ in a.body:
                     env_ = types(a_, env_, func=True)
-                env[a.name] = Callable[ts, t_ret]
+                if t_ret is not None and _types_monomorphic(t_ret):
+                    env[a.name] = Callable[ts, t_ret]
 
         return env
 
@@ -273,6 +321,8 @@ def types(a, env=None, func=False):
                         break
                     if isinstance(target_.value, (ast.Name, ast.Subscript)):
                         target_ = target_.value
+                    else:
+                        break  # The base is neither a variable nor a subscript.
 
                 if invalid_index:
                     audits(a, "types", TypeErrorRoot("indices must be integers"))
@@ -301,10 +351,13 @@ def types(a, env=None, func=False):
         if isinstance(a.target, ast.Name):
             rules_no_restriction(a)
             rules_no_restriction(a.target)
-            types(a.value, env, func)
-            t = audits(a.value, "types")
+            if a.value is not None:
+                types(a.value, env, func)
+                t = audits(a.value, "types")
+            else:
+                t = TypeErrorRoot("annotated assignment requires a value")
             try:
-                t_a = eval(ast.unparse(a.annotation))  # pylint: disable=eval-used
+                t_a = _types_eval(a.annotation)
                 rules_no_restriction(a.annotation, recursive=True)
                 if not _types_list_monomorphic(t_a):
                     audits(
@@ -314,8 +367,11 @@ def types(a, env=None, func=False):
                             "assignment of list value requires fully specified type annotation"
                         ),
                     )
-            except:  # pylint: disable=bare-except
+            except ValueError:
                 t_a = TypeErrorRoot("invalid type annotation")
+
+            if isinstance(t_a, TypeError) and not isinstance(t, TypeError):
+                t = t_a
 
             if isinstance(t, TypeError):
                 audits(a, "types", t)
@@ -340,7 +396,8 @@ def types(a, env=None, func=False):
     if isinstance(a, ast.Return):
         if func:
             rules_no_restriction(a)
-            types(a.value, env, func)
+            if a.value is not None:
+                types(a.value, env, func)
         return env
 
     if isinstance(a, ast.For):
@@ -638,7 +695,9 @@ def types(a, env=None, func=False):
                 t = range
                 if len(a.args) != 1 or audits(a.args[0], "types") != int:
                     t = TypeErrorRoot("expecting single integer argument")
-                    if isinstance(audits(a.args[0], "types"), TypeError):
+                    if len(a.args) >= 1 and isinstance(
+                        audits(a.args[0], "types"), TypeError
+                    ):
                         t = typeerror_demote(t)
                 audits(a, "types", t)
                 audits(a.func, "types", TypeInParent())
@@ -668,11 +727,15 @@ def types(a, env=None, func=False):
                 rules_no_restriction(a)
                 rules_no_restriction(a.func)
                 t_f = env[a.func.id]
-                ts = t_f.__args__[:-1]
-                t = TypeErrorRoot("function arguments do not match function type")
-                if len(ats) == len(ts):
-                    if all(t_a == t for (t_a, t) in zip(ats, ts)):
-                        t = t_f.__args__[-1]
+                t = TypeErrorRoot("only functions can be called")
+                if getattr(t_f, "__name__", None) == "Callable" and hasattr(
+                    t_f, "__args__"
+                ):
+                    ts = t_f.__args__[:-1]
+                    t = TypeErrorRoot("function arguments do not match function type")
+                    if len(ats) == len(ts):
+                        if all(t_a == t_ for (t_a, t_) in zip(ats, ts)):
+                            t = t_f.__args__[-1]
                 audits(a, "types", t)
                 audits(a.func, "types", TypeInParent())
 
@@ -764,6 +827,7 @@ def types(a, env=None, func=False):
             types(a.comparators[0], env, func)
             t_l = audits(a.left, "types")
             t_r = audits(a.comparators[0], "types")
+            t = TypeErrorRoot("unsupported comparison operator")
             if isinstance(op, (ast.Eq, ast.NotEq)):
                 if t_l == bool and t_r == bool:
                     t = bool
